@@ -5,7 +5,7 @@
    share no dictionary.  Tested only: the contents of the copies, compose / flagComplex /
    vietorisRipsComplex / Filtration.copy freshness, follow-up mutation scripts. *)
 From Coq Require Import String ZArith Bool Arith List.
-From SV Require Import Names NamesFacts ListFacts Rep Fresh Complex Atomic RepInv Reach Homology Filtration Gen World WorldProofs Shapes CopyFaithful.
+From SV Require Import Names NamesFacts ListFacts Rep Fresh Complex Atomic RepInv Reach Homology Filtration Gen World WorldProofs Shapes CopyFaithful CopyAttrs.
 
 Theorem C09_copy_is_fresh :
   forall hp src uid hp' r' x, copy_new hp src uid = (hp', r', x) ->
@@ -44,3 +44,17 @@ Theorem C09_copy_faithful :
      orderOf r' s = Ok (length (faces src s) - 1) /\ forall t, In t (faces r' s) <-> In t (faces src s)).
 Proof. exact copy_faithful. Qed.
 Print Assumptions C09_copy_faithful.
+
+(* ... and every simplex of the copy has an attribute dictionary owned by the copy whose contents
+   are those of the source's dictionary; no dictionary of another owner is written (uid: the fresh
+   owner id of the copy; 0 is the owner of the never-written empty dictionary) *)
+Theorem C09_copy_attribute_values :
+  forall hp src uid hp' r',
+  (forall s h, assoc s (r_attr src) = Some h -> fst h <> uid) -> uid <> 0 ->
+  copy_new hp (view_of src) uid = (hp', r', Ok tt) ->
+  (forall s, In s (simplices src false) ->
+     exists h', assoc s (r_attr r') = Some h' /\ fst h' = uid /\
+       heap_get hp' h' = heap_get hp (match assoc s (r_attr src) with Some h => h | None => (0, 0) end)) /\
+  (forall h0, fst h0 <> uid -> heap_get hp' h0 = heap_get hp h0).
+Proof. exact copy_attrs. Qed.
+Print Assumptions C09_copy_attribute_values.
